@@ -64,6 +64,8 @@ fn cfg_strategy() -> BoxedStrategy<Cfg> {
             downgrade,
             will,
             auth,
+            jitter_us: 0,
+            ping_delays_us: vec![],
         })
         .boxed()
 }
